@@ -7,112 +7,5 @@
     re-export it (C03 C04 C07 C08), whatever the generators of the correspondence check happen to produce.
     A fragment the translator does not find any more (renamed variable, restructured function) is replaced in Gen.v by the
     model's own formula and reported in the evidence; it is then tied by the correspondence check only. *)
-From Coq Require Import NArith ZArith Bool List Lia ZifyBool ZifyN.
-From Hoot Require Import Base Chunk Body Url Request Call Gen.
-Open Scope N_scope.
-
-Ltac frag := intros; cbv beta delta [gen_sized_write_n gen_chunk_to_write gen_read_limit_n gen_read_unlimit_n gen_chunk_read_n
-                                      gen_size_len_end gen_write_overshoot gen_write_after_finish gen_direct_overshoot];
-             repeat match goal with |- context [if ?c then _ else _] => destruct c eqn:? end; try reflexivity; lia.
-
-(** (i) the statement's formulas *)
-Lemma gen_sized_write_n_spec a i l : gen_sized_write_n a i l = N.min (N.min a i) l.          Proof. frag. Qed.
-Lemma gen_chunk_to_write_spec i m a : gen_chunk_to_write i m a = N.min (N.min i m) a.         Proof. frag. Qed.
-Lemma gen_read_limit_n_spec s d l : gen_read_limit_n s d l = N.min (N.min s d) l.             Proof. frag. Qed.
-Lemma gen_read_unlimit_n_spec s d : gen_read_unlimit_n s d = N.min s d.                       Proof. frag. Qed.
-Lemma gen_chunk_read_n_spec s d l : gen_chunk_read_n s d l = N.min (N.min s d) l.             Proof. frag. Qed.
-Lemma gen_size_len_end_spec b m i :
-  gen_size_len_end b m i = N.min (if b then m else SANITY_CHECK + 1) i.
-Proof. unfold SANITY_CHECK. frag. Qed.
-Lemma gen_write_overshoot_spec i l : gen_write_overshoot i l = (l <? i).                      Proof. frag. Qed.
-Lemma gen_direct_overshoot_spec a l : gen_direct_overshoot a l = (l <? a).                    Proof. frag. Qed.
-Lemma gen_write_after_finish_spec e x : gen_write_after_finish e x = negb e && x.
-Proof. destruct e, x; reflexivity. Qed.
-
-(** (ii) the model computes exactly these *)
-Lemma writer_write_sized_gen w lft input cap :
-  w_mode w = SSized lft ->
-  exists w', writer_write w input cap = Ok (w', gen_sized_write_n cap (len input) lft,
-                                            take (gen_sized_write_n cap (len input) lft) input)
-             /\ w_mode w' = SSized (lft - gen_sized_write_n cap (len input) lft).
-Proof.
-  intros H. unfold writer_write. rewrite H. rewrite ?gen_sized_write_n_spec.
-  eexists. split; [reflexivity|reflexivity].
-Qed.
-
-Lemma write_chunk_gen input avail maxc :
-  write_chunk input avail maxc =
-  let n := gen_chunk_to_write (len input) maxc (max_chunk_fit avail maxc) in
-  if n =? 0 then None
-  else if len (enc_chunk_n n input) <=? avail then Some (n, enc_chunk_n n input) else None.
-Proof. unfold write_chunk. cbv zeta. rewrite ?gen_chunk_to_write_spec. reflexivity. Qed.
-
-Lemma reader_read_length_gen lft src room stop :
-  reader_read (RLength lft) src room stop =
-  Ok (RLength (lft - gen_read_limit_n (len src) room lft), gen_read_limit_n (len src) room lft,
-      take (gen_read_limit_n (len src) room lft) src).
-Proof. unfold reader_read. rewrite ?gen_read_limit_n_spec. reflexivity. Qed.
-
-Lemma reader_read_close_gen src room stop :
-  reader_read RClose src room stop =
-  Ok (RClose, gen_read_unlimit_n (len src) room, take (gen_read_unlimit_n (len src) room) src).
-Proof. unfold reader_read. rewrite ?gen_read_unlimit_n_spec. reflexivity. Qed.
-
-Lemma read_data_gen lft src room :
-  exists r, read_data lft src room = Ok r /\
-            sr_in r = gen_chunk_read_n (len src) room lft /\
-            sr_out r = take (gen_chunk_read_n (len src) room lft) src /\
-            sr_st r = (if lft - gen_chunk_read_n (len src) room lft =? 0 then DCrLf
-                       else DChunk (lft - gen_chunk_read_n (len src) room lft)).
-Proof. unfold read_data. rewrite ?gen_chunk_read_n_spec. eexists. split; [reflexivity|]. cbn. auto. Qed.
-
-(** The part of a size line handed to the number parser ends where the translated expression says. *)
-Lemma read_size_gen src i :
-  find_crlf src = Some i -> (SANITY_CHECK <? i) = false ->
-  let mm := position (fun c => c =? 59) (take META_WINDOW src) in
-  let raw := take (gen_size_len_end (match mm with Some _ => true | None => false end)
-                                    (match mm with Some m => m | None => 0 end) i) src in
-  read_size src =
-  if negb (forallb (fun c => c <? 128) raw) then Err ChunkLenNotAscii else
-  match parse_hex_usize (trim raw) with
-  | None => Err ChunkLenNotANumber
-  | Some n => Ok {| sr_st := if n =? 0 then DEnding else DChunk n; sr_in := i + 2; sr_out := []; sr_more := true |}
-  end.
-Proof.
-  intros Hf Hs. cbv zeta. unfold read_size. rewrite Hf, Hs. rewrite ?gen_size_len_end_spec.
-  destruct (position (fun c => c =? 59) (take META_WINDOW src)); reflexivity.
-Qed.
-
-(** The two refusals of [Call<WithBody>::write] and the refusal of [consume_direct_write] are the translated guards. *)
-Lemma call_write_body_guards c c1 input cap :
-  analyze_request c = Ok c1 -> is_prelude (c_phase c1) = false -> is_body (c_phase c1) = true ->
-  call_write_body c input cap =
-  if gen_write_after_finish (match input with [] => true | _ => false end) (w_ended (c_writer c1))
-  then Err BodyContentAfterFinish
-  else if match left_to_send (c_writer c1) with Some l => gen_write_overshoot (len input) l | None => false end
-  then Err BodyLargerThanContentLength
-  else do r <- writer_write (c_writer c1) input cap;
-       let '(w, used, out) := r in Ok (set_writer c1 w, used, out).
-Proof.
-  intros Ha Hp Hb. unfold call_write_body. rewrite Ha. cbn [bind]. rewrite Hp, Hb.
-  rewrite ?gen_write_after_finish_spec.
-  replace (negb (match input with [] => true | _ => false end)) with (match input with [] => false | _ => true end)
-    by (destruct input; reflexivity).
-  destruct (left_to_send (c_writer c1)); [rewrite ?gen_write_overshoot_spec|]; reflexivity.
-Qed.
-
-Lemma call_direct_write_guard c amount :
-  call_direct_write c amount =
-  match left_to_send (c_writer c) with
-  | Some l => if gen_direct_overshoot amount l then Err BodyLargerThanContentLength
-              else do w <- writer_direct (c_writer c) amount; Ok (set_writer c w)
-  | None => Err BodyIsChunked
-  end.
-Proof. unfold call_direct_write. destruct (left_to_send (c_writer c)); [rewrite ?gen_direct_overshoot_spec|]; reflexivity. Qed.
-
-(** The conversion of the remaining declared length (a u64) to a buffer length: the identity below 2^64 (a truncating cast,
-    `as u32`, is not). *)
-Lemma gen_sized_left_usize_spec l : l < 18446744073709551616 -> gen_sized_left_usize l = l.
-Proof. intros H. unfold gen_sized_left_usize. repeat (try lia; match goal with |- context [if ?c then _ else _] => destruct c eqn:? end); lia. Qed.
-Lemma gen_read_left_usize_spec l : l < 18446744073709551616 -> gen_read_left_usize l = l.
-Proof. intros H. unfold gen_read_left_usize. repeat (try lia; match goal with |- context [if ?c then _ else _] => destruct c eqn:? end); lia. Qed.
+(** Split into Gen_equiv_frag_c03 / _c04 / _c07 / _c08; this file re-exports them. *)
+From Hoot.proofs Require Export Gen_equiv_frag_c03 Gen_equiv_frag_c04 Gen_equiv_frag_c07 Gen_equiv_frag_c08.
